@@ -513,6 +513,7 @@ void reb_integrator_trace_kepler_step(struct reb_simulation* const r, const doub
 
 
 void reb_integrator_trace_part1(struct reb_simulation* r){
+    if (r->N==0) return; // Nothing to integrate (all particles removed): the hybrid steps read particles[0].
     r->gravity_ignore_terms = 0; // The FULL pericentre prescriptions use REB_GRAVITY_BASIC and need all pair terms.
     // Do memory management and consistency checks in part1.
     // Actual integration is happening in part2.
@@ -804,6 +805,11 @@ static void reb_integrator_trace_step(struct reb_simulation* const r){
 }
 
 void reb_integrator_trace_part2(struct reb_simulation* const r){
+    if (r->N==0){
+        r->t+=r->dt;
+        r->dt_last_done = r->dt;
+        return;
+    }
     struct reb_integrator_trace* const ri_trace = &(r->ri_trace);
     const int N = r->N;
     
@@ -842,6 +848,7 @@ void reb_integrator_trace_part2(struct reb_simulation* const r){
 }
 
 void reb_integrator_trace_synchronize(struct reb_simulation* r){
+    if (r->N==0) return;
 }
 
 void reb_integrator_trace_reset(struct reb_simulation* r){
